@@ -1016,8 +1016,9 @@ def check_validator_placement(prog, rep, eng, roots):
                  or strip_clone(e[1]) != e[1]]
         rep.check(bool(esc) and ctx_ok, "C14-R2", f"{name}/parsed", where, "the returned trees are `?` of the parser + preprocessing on the graph's symbolic context",
                   "no parsed tree reaches the result" if not esc else "the parser is not given the symbolic context of the graph the trees are validated against")
-        sup = lambda t: t[0] == "call" and isinstance(t[1], str) and t[1].endswith("check_hctl_var_support") and len(t[2]) == 2 and t[2][0] == graph \
-            and strip_clone(t[2][1]) == tree          # noqa: E731
+        sup_paths = pipelines.support_check_paths(prog)
+        sup = lambda t: t[0] == "call" and isinstance(t[1], str) and (t[1].endswith("check_hctl_var_support") or t[1] in sup_paths) and len(t[2]) == 2 \
+            and t[2][0] == graph and strip_clone(t[2][1]) == tree          # noqa: E731
         val = lambda t: q.is_ok_test(t) is not None and q.is_ok_test(t)[0] == "call" and q.is_ok_test(t)[1].endswith("validate_and_divide_wild_cards") \
             and strip_clone(q.is_ok_test(t)[2][0]) == tree and q.is_ok_test(t)[2][1] == ("param", pn[2])          # noqa: E731
         esc = [(w_, v_, propagate(q.conds([("if", t, pol) for t, pol in conds]))) for w_, v_, conds in esc]
@@ -1026,6 +1027,7 @@ def check_validator_placement(prog, rep, eng, roots):
                   "a tree can reach the result without check_hctl_var_support(graph, that tree) having returned true (evaluation would panic in mk_var_by_name / get(index).unwrap())")
         if extended:
             good_val = bool(esc) and all(any(pol and val(t) for t, pol in conds) for _, _, conds in esc)
+
             rep.check(good_val, "C14-R2", f"{name}/context", where, "each tree is validated against the context before it reaches the result, errors propagated",
                       "a tree can reach the result without validate_and_divide_wild_cards(that tree, context) having succeeded")
     vnames = [f.path for f in (vplain, vext) if f is not None]
